@@ -189,6 +189,14 @@ type readSite struct {
 }
 
 func columnReadSites(c *Ctx, fns []*ssa.Function) []readSite {
+	// the readers' own implementation (one reader written in terms of another) is not a read site of the parser
+	var outside []*ssa.Function
+	for _, fn := range fns {
+		if fnPkgPath(fn) != pkgPathOf("csv") {
+			outside = append(outside, fn)
+		}
+	}
+	fns = outside
 	var out []readSite
 	for _, fn := range fns {
 		for _, b := range fn.Blocks {
@@ -231,11 +239,19 @@ type optSummary struct {
 	table                string
 }
 
+// csvRolesGlobal: the csv package's private names by role, set by the rule that needs them (see csvroles.go).
+var csvRolesGlobal = &csvRoles{curRow: "currentRow", hdrMap: "headerMap", rowType: "csv.row", cells: "cells", colIndex: "i"}
+
 func summariseOptionalRead(c *Ctx, spec string) (*optSummary, string) {
+	csvRolesGlobal = c.csvRoleNames()
 	f := c.anchor(spec)
 	if f == nil {
 		return nil, "anchor"
 	}
+	return summariseOptionalFn(c, f, 0)
+}
+
+func summariseOptionalFn(c *Ctx, f *ssa.Function, depth int) (*optSummary, string) {
 	tb, err := extractTableV(f)
 	if err != nil {
 		return nil, err.Error()
@@ -273,11 +289,41 @@ func summariseOptionalRead(c *Ctx, spec string) (*optSummary, string) {
 				return nil, "returns an unexpected constant"
 			}
 		case *ssa.UnOp:
-			if ia, ok := v.X.(*ssa.IndexAddr); ok && strings.HasSuffix(canon(ia.X), ".cells)") {
+			if ia, ok := v.X.(*ssa.IndexAddr); ok && strings.HasSuffix(canon(ia.X), "."+csvRolesGlobal.cells+")") {
 				res = "cell"
 			} else {
 				return nil, "returns an unexpected load"
 			}
+		case *ssa.Call:
+			// one reader written in terms of the other (Read() = ReadOr("")): compose the summaries
+			cal := v.Call.StaticCallee()
+			if cal == nil || depth > 1 || len(r.conds) != 0 || len(tb.rows) != 1 || len(v.Call.Args) != 2 || v.Call.Args[0] != ssa.Value(f.Params[0]) ||
+				cal.Signature.Recv() == nil || typeName(cal.Signature.Recv().Type()) != typeName(f.Signature.Recv().Type()) {
+				return nil, "returns an unexpected expression " + canon(r.vals[0])
+			}
+			inner, why := summariseOptionalFn(c, cal, depth+1)
+			if inner == nil {
+				return nil, "delegates to " + cal.Name() + ", which cannot be summarised: " + why
+			}
+			def := ""
+			switch a := v.Call.Args[1].(type) {
+			case *ssa.Parameter:
+				def = "default"
+			case *ssa.Const:
+				if cs, ok := constString(a); ok && cs == "" {
+					def = "empty"
+				}
+			}
+			if def == "" {
+				return nil, "delegates to " + cal.Name() + " with a default that is neither its own parameter nor \"\""
+			}
+			sub := func(x string) string {
+				if x == "default" {
+					return def
+				}
+				return x
+			}
+			return &optSummary{table: tb.String() + " => " + inner.table, absent: sub(inner.absent), blank: sub(inner.blank), value: sub(inner.value)}, ""
 		default:
 			return nil, "returns an unexpected expression " + canon(r.vals[0])
 		}
@@ -330,7 +376,7 @@ func classifyColumnAtom(a atom) string {
 			return false
 		}
 		fa, ok := ld.X.(*ssa.FieldAddr)
-		return ok && fieldName(fa.X.Type(), fa.Field) == "i"
+		return ok && fieldName(fa.X.Type(), fa.Field) == csvRolesGlobal.colIndex
 	}
 	isCell := func(x ssa.Value) bool {
 		ld, ok := x.(*ssa.UnOp)
@@ -338,7 +384,7 @@ func classifyColumnAtom(a atom) string {
 			return false
 		}
 		ia, ok := ld.X.(*ssa.IndexAddr)
-		return ok && strings.HasSuffix(canon(ia.X), ".cells)")
+		return ok && strings.HasSuffix(canon(ia.X), "."+csvRolesGlobal.cells+")")
 	}
 	if isIndexField(b.X) {
 		if k, ok := constInt(b.Y); ok {
